@@ -156,6 +156,11 @@ def finalize(ctx):
                                 ctx.violate("C07", "join_release_time", f"{j['uname']} released at {j['released_at']} but taken branch finished at {f}")
                             if len(j["starts"]) > 1:
                                 ctx.violate("C07", "join_started_twice", f"{j['uname']} starts {j['starts']}")
+                            if not j["starts"] and getattr(ctx, "work_conserving", False):
+                                # feasible world, work-conserving policy, nothing dropped or cancelled by deadline: "the join
+                                # and everything after it run once the taken branch completes"
+                                ctx.violate("C07", "join_did_not_run", f"{j['uname']} is {j['state']} at the end of the run although the "
+                                                                       f"taken branch ({ex['uname']}) completed at {f}")
                         elif j["cancelled_at"] is not None and j["cancelled_at"] < f:
                             pass  # cancelled by a policy before the branch completed
                     continue
